@@ -4,5 +4,7 @@ cd /verif || exit 2
 export GOFLAGS=-mod=mod GOPROXY=off
 mkdir -p bin evidence
 go build -o bin/vcheck ./cmd/vcheck || exit 2
+go build -o bin/vrewrite ./cmd/vrewrite || exit 2
 bin/vcheck selftest || exit 2
+bin/vcheck buildgovs || exit 2
 echo setup ok
